@@ -49,7 +49,14 @@ where
   type Unsub = ();
 
   fn actual_subscribe(self, mut observer: O) -> Self::Unsub {
-    self.0.into_iter().for_each(|v| observer.next(v));
+    for v in self.0 {
+      // stop pulling once nobody listens any more (e.g. after `take`),
+      // otherwise an unbounded iterator would never return.
+      if observer.is_finished() {
+        break;
+      }
+      observer.next(v);
+    }
     observer.complete();
   }
 }
